@@ -228,4 +228,24 @@ Proof.
     apply g_ops_spec in Hq. destruct Hq as (oq & Hoq & Hk). exists oq. repeat split; try assumption.
     exists kp. now rewrite g_next_wrap_is_nextc.
 Qed.
+(* a neighbour always exists: the list of operators on v contains p itself *)
+Lemma nextc_exists l p k : In (p, k) l -> exists x, nextc l p = Some x.
+Proof.
+  intros Hin. unfold nextc. destruct (first_gt fst p l); [eauto|]. destruct l; [contradiction|]. cbn. eauto.
+Qed.
+Lemma prevc_exists l p k : In (p, k) l -> exists x, prevc l p = Some x.
+Proof.
+  intros Hin. unfold prevc. destruct (last_lt fst p l); [eauto|].
+  destruct (rev_case l) as [->|(l' & y & ->)]; [contradiction|]. rewrite hd_error_rev_snoc. eauto.
+Qed.
+
+Theorem nbr_exists sl p o v sd :
+  g_get sl p = Some o -> In v (vf o) -> exists q kq, nbr sl p v sd = Some (q, kq).
+Proof.
+  intros Hp Hv. destruct (index_of_in v (vf o) Hv) as [kp Hkp].
+  assert (Hin : In (p, kp) (g_ops_on_var vf sl v)) by (apply g_ops_spec; eauto).
+  unfold nbr. destruct sd.
+  - rewrite g_next_wrap_is_nextc. destruct (nextc_exists _ _ _ Hin) as [[q kq] E]. eauto.
+  - rewrite g_prev_wrap_is_prevc. destruct (prevc_exists _ _ _ Hin) as [[q kq] E]. eauto.
+Qed.
 End Gen.
